@@ -363,3 +363,21 @@ Definition go_store64 (l : list Z) (i v : Z) : res (list Z) :=
     then Ok (firstn (Z.to_nat i) l ++ go_le_bytes 8 v ++ skipn (Z.to_nat i + 8) l)
     else Panic PFault
   else Panic PIndex.
+
+(* ---- slice results that are an argument on one path and a new slice on another ----
+   (LNDSFunc: `return vs` for an empty input, `return ret` otherwise).  [SlOf v]: the result is the
+   window [v] of a slice argument (storage shared with the caller's slice); [SlNew l]: a slice the
+   function allocated, with elements [l]. *)
+Inductive go_sres (T : Type) : Type :=
+| SlOf (v : view)
+| SlNew (l : list T).
+Arguments SlOf {T} v.
+Arguments SlNew {T} l.
+
+(* ---- pointers to immutable structs ----
+   A pointer *S to a struct whose fields are assigned only in composite literals (checked by the
+   translator) is the struct VALUE or nil: [option S].  Reading a field through nil is Go's
+   run-time panic [PNil].  Pointer identity (p == q) is not represented. *)
+Definition PNil : panic_kind := PMsg "invalid memory address or nil pointer dereference".
+Definition go_deref {A : Type} (p : option A) : res A :=
+  match p with Some a => Ok a | None => Panic PNil end.
